@@ -298,6 +298,16 @@ def parseHsFields : Nat → List Tok → HsAcc → Option (HsAcc × List Tok)
         | some r' => parseHsFields f r' a
     | _ => none
 
+/-- Elements of a list decoded into `[]byte` (each must be an integer `ParseUint` accepts). -/
+def skipU8List : Nat → List Tok → Option (List Tok)
+  | 0, _ => none
+  | _ + 1, [] => none
+  | f + 1, t :: r =>
+    match t with
+    | .fin => some r
+    | .int ds => match strconvUint64 ds with | none => none | some _ => skipU8List f r
+    | _ => none
+
 structure MdAcc where
   msgType : Int := 0
   piece : Nat := 0
@@ -330,6 +340,16 @@ def parseMdFields : Nat → List Tok → MdAcc → Option (MdAcc × List Tok)
           match strconvInt64 ds with
           | none => none
           | some z => parseMdFields f r' { a with totalSize := z }
+        | _ => none
+      else if k = [45] then
+        -- library quirk: the decoder ignores the `bencode:"-"` tag of `Data []byte`, so the key "-"
+        -- addresses that field (a string or a list of small integers; overwritten afterwards)
+        match r with
+        | .str _ :: r' => parseMdFields f r' a
+        | .lst :: r' =>
+          match skipU8List f r' with
+          | none => none
+          | some r'' => parseMdFields f r'' a
         | _ => none
       else
         match skipAny f r with
